@@ -1,7 +1,7 @@
 #!/usr/bin/env python3
 """Prompt for a refactoring sub-agent: behaviour-preserving edits near the anchors of some properties."""
 import json, sys
-ids = sys.argv[1].split(','); wt = sys.argv[2]
+ids = sys.argv[1].split(','); wt = sys.argv[2]; style = sys.argv[3] if len(sys.argv) > 3 else 'local'
 name = wt.rstrip('/').split('/')[-1]
 props = [json.loads(l) for l in open('/verif/properties.jsonl')]
 sel = [p for p in props if p['id'] in ids]
@@ -12,7 +12,7 @@ Here are some semantic properties of the crate that currently hold (JSON records
 
 {json.dumps(sel, indent=1)}
 
-YOUR TASK: produce FOUR independent, realistic, BEHAVIOUR-PRESERVING refactorings of the library source (src/) in or near the anchored code of these properties - the kind of clean-up a maintainer does without intending any semantic change, and after which every one of the properties above STILL HOLDS. Examples of what is wanted: rename private functions/locals/fields; extract a helper function out of a long function or inline a small helper; `if let` <-> `match`; `for` loop <-> iterator chain or index loop; reorder statements that are independent; rewrite a boolean expression into an equivalent form (De Morgan, early return vs nested if); replace `x.map_or(..)` by `match`; move a private item to another module; change message texts / comments; split a function into two. Make them non-trivial (each touches 5-40 lines) and DIFFERENT in kind from each other. They must NOT change observable behaviour in any case (same files written, same order of file-system operations, same locking, same error handling, same results for all inputs).
+YOUR TASK: produce FOUR independent, realistic, BEHAVIOUR-PRESERVING refactorings of the library source (src/) in or near the anchored code of these properties - the kind of clean-up a maintainer does without intending any semantic change, and after which every one of the properties above STILL HOLDS. Examples of what is wanted: rename private functions/locals/fields; extract a helper function out of a long function or inline a small helper; `if let` <-> `match`; `for` loop <-> iterator chain or index loop; reorder statements that are independent; rewrite a boolean expression into an equivalent form (De Morgan, early return vs nested if); replace `x.map_or(..)` by `match`; move a private item to another module; change message texts / comments; split a function into two. {"In THIS batch prefer STRUCTURAL refactorings, the kind that happens when a code base evolves: change the signature of a private function (add, remove or reorder a parameter; pass `&self`/a config struct instead of single fields; return a tuple or a small private struct instead of mutating an out-parameter); turn a free function into a method or vice versa; introduce a private newtype / struct / enum to replace a tuple or a bool flag; merge two small private functions or split one; move a private impl block or function to a new private sub-module; replace a hand-written loop/match by a std combinator or vice versa; hoist a repeated expression into a local or a private const. Keep public API, file formats, messages and behaviour identical." if style == 'structural' else ""} Make them non-trivial (each touches 5-40 lines) and DIFFERENT in kind from each other. They must NOT change observable behaviour in any case (same files written, same order of file-system operations, same locking, same error handling, same results for all inputs).
 
 For EACH refactoring i = 1..4:
   1. start from the clean tree (`git -C {wt} checkout -- . `), apply your edit,
